@@ -199,6 +199,9 @@ func (expiryValidator) Validate(from, _ int64) error {
 	if from == 424242 {
 		return operationparser.ErrOperationExpired
 	}
+	if from == 515151 {
+		return operationparser.ErrOperationEarly // not yet valid: the handler must fail the batch, not drop the operation
+	}
 	return nil
 }
 
@@ -235,6 +238,10 @@ func buildWriterBank(kp *world.KeyPool, nDID int) []wOp {
 		bank = append(bank, wOp{sfxID: int64(i + 1), ty: operation.TypeUpdate, req: u.Request, suffix: sfx})
 		ue := world.Build(world.Spec{Type: operation.TypeUpdate, Suffix: sfx, RevealKey: upd, SignedKey: upd, SignWith: upd, NextUpd: n1.Commitment(world.SHA256), DeltaID: int64(200 + i), From: 424242, Until: 424243})
 		bank = append(bank, wOp{sfxID: int64(i + 1), ty: operation.TypeUpdate, req: ue.Request, suffix: sfx, expired: true})
+		if i%2 == 1 {
+			uy := world.Build(world.Spec{Type: operation.TypeUpdate, Suffix: sfx, RevealKey: upd, SignedKey: upd, SignWith: upd, NextUpd: n1.Commitment(world.SHA256), DeltaID: int64(250 + i), From: 515151, Until: 515152})
+			bank = append(bank, wOp{sfxID: int64(i + 1), ty: operation.TypeUpdate, req: uy.Request, suffix: sfx})
+		}
 		r := world.Build(world.Spec{Type: operation.TypeRecover, Suffix: sfx, RevealKey: rec, SignedKey: rec, SignWith: rec, NextUpd: n1.Commitment(world.SHA256), NextRec: n2.Commitment(world.SHA256), DeltaID: int64(300 + i)})
 		bank = append(bank, wOp{sfxID: int64(i + 1), ty: operation.TypeRecover, req: r.Request, suffix: sfx})
 		dd := world.Build(world.Spec{Type: operation.TypeDeactivate, Suffix: sfx, RevealKey: rec, SignedKey: rec, SignWith: rec})
@@ -475,7 +482,21 @@ func runC16(c *ctx) error {
 			case "remove":
 				evs = append(evs, "ERemove")
 			case "prepare":
-				evs = append(evs, emit.App("EPrepare", emit.Bool(e.OK), zl(e.Expired)))
+				// which operations are expired is known by construction (the bank), not taken from the handler's answer
+				var exp []int64
+				for _, id := range e.Batch {
+					if bank[ids[id].bank].expired {
+						exp = append(exp, id)
+					}
+				}
+				if e.OK && fmt.Sprint(exp) != fmt.Sprint(e.Expired) {
+					r.Direct = append(r.Direct, out.Direct{Oracle: "handler_discards_exactly_the_expired_operations",
+						What: fmt.Sprintf("expired by construction %v, discarded by the handler %v", exp, e.Expired), Case: desc})
+				}
+				if !e.OK {
+					exp = nil
+				}
+				evs = append(evs, emit.App("EPrepare", emit.Bool(e.OK), zl(exp)))
 			case "anchor":
 				evs = append(evs, emit.App("EAnchor", emit.Bool(e.OK)))
 			case "readd":
